@@ -59,7 +59,9 @@ impl Personality for ConPers {
     fn handle(&mut self, w: &mut World, _q: u16, chain: &Chain, readable: &[u8]) -> Option<Response> {
         let rl: Vec<u32> = chain.elems.iter().filter(|e| !e.w).map(|e| e.len).collect();
         let wl: Vec<u32> = chain.elems.iter().filter(|e| e.w).map(|e| e.len).collect();
-        w.dev(json!({"e":"DevTx","dg":fnv64(readable),"len":readable.len(),"rl":rl,"wl":wl}));
+        let affine = readable.windows(2).all(|w| w[1] == w[0].wrapping_add(7));
+        w.dev(json!({"e":"DevTx","dg":fnv64(readable),"len":readable.len(),"rl":rl,"wl":wl,
+                     "first":readable.first().copied().map(|b| b as i64).unwrap_or(-1),"affine":affine}));
         Some(Response { data: vec![], used_len: Some(0) })
     }
     fn idle(&mut self, w: &mut World, core: &mut EngineCore) -> bool {
@@ -166,6 +168,18 @@ fn drive<T: Transport>(t: T, p: &ConParams, rng: &mut SmallRng) -> String {
                         con.consume(k);
                         dev(json!({"e":"Ret","ok":true}));
                     }
+                    Err(e) => fail(e),
+                }
+            }
+            95..=99 => {
+                // embedded-io Write::write with position-coded data, lengths around and beyond a page
+                use embedded_io::Write;
+                let n: usize = [0usize, 1, 100, 4095, 4096, 4097, 5000, 10000][rng.gen_range(0..8)];
+                let start: u64 = rng.gen_range(0..1_000_000);
+                let data: Vec<u8> = (0..n as u64).map(|i| stream_byte(start + i)).collect();
+                dev(json!({"e":"Call","op":"write","start":start,"len":n}));
+                match con.write(&data) {
+                    Ok(k) => dev(json!({"e":"Ret","ok":true,"n":k})),
                     Err(e) => fail(e),
                 }
             }
